@@ -265,6 +265,44 @@ def run_subprocess(workdir, idx, text, argv):
     return cat, executed, listed, p.returncode, p.stderr[-300:]
 
 
+SEQ_MAIN = '''
+if __name__ == '__main__':
+    import json
+    for _av in json.loads(os.environ['TSEQ']):
+        print('=== RUN', flush=True)
+        _log('===RUN')
+        try:
+            ReferenceTestCase.main(argv=list(_av), exit=False)
+        except SystemExit as _e:
+            print('=== EXIT %r' % (_e.code,), flush=True)
+'''
+
+
+def run_sequence(workdir, idx, text, argvs):
+    """several runs of one test module in ONE process (as a driver script or an interactive session does):
+    returns [(executed, listed)] per run"""
+    import json
+    path = os.path.join(workdir, 's%d' % idx)
+    os.makedirs(path, exist_ok=True)
+    text = text.replace("if __name__ == '__main__':\n    ReferenceTestCase.main()\n", SEQ_MAIN)
+    with open(os.path.join(path, 'mod.py'), 'w') as f:
+        f.write(text)
+    logp = os.path.join(path, 'log.txt')
+    open(logp, 'w').close()
+    env = dict(os.environ, TLOG=logp, PYTHONPATH=lib.REPO, PYTHONHASHSEED='0', TSEQ=json.dumps(argvs))
+    p = subprocess.run([lib.PY, 'mod.py'], cwd=path, env=env, stdout=subprocess.PIPE, stderr=subprocess.PIPE,
+                       text=True, timeout=120)
+    logs = open(logp).read().split('===RUN')[1:]
+    outs = p.stdout.split('=== RUN')[1:]
+    res = []
+    for i in range(len(argvs)):
+        executed = logs[i].split() if i < len(logs) else None
+        listed = [l[len('__main__.'):] for l in (outs[i] if i < len(outs) else '').split('\n') if l.startswith('__main__.')]
+        res.append((executed, listed))
+    shutil.rmtree(path, ignore_errors=True)
+    return res, p.stderr[-300:]
+
+
 def model_run_decode(res):
     if res[0] == 0:
         return ('ran', [dstr(c) + '.' + dstr(m) for c, m in res[1]], dstrs(res[2]))
@@ -368,6 +406,36 @@ def run(ctx):
                 ctx.fail({'layer': 'B', 'classes': classes, 'argv': full},
                          'module run with %r executed %r listed %r (%s, rc=%s); property requires '
                          'executed %r listed %r' % (full, executed, listed, cat, rc, want[0], want[1]))
+    # ---------------- layer C: several runs in one process must each behave as a run on its own
+    nC = 24 if ctx.quick else 400
+    seqjobs = []
+    for i in range(nC):
+        classes = gen_module(rng)
+        argvs = []
+        for _ in range(rng.choice([2, 3])):
+            for _try in range(20):
+                argv, tail = gen_run_argv(rng, classes, True)
+                if in_domain(argv) and oracle_run(classes, argv) is not None and '-W' not in ' '.join(argv) \
+                        and not any(a.startswith('--w') or a.startswith('-w') for a in argv):
+                    argvs.append(argv)
+                    break
+        if len(argvs) >= 2:
+            seqjobs.append((classes, argvs))
+    work = tempfile.mkdtemp(prefix='c19s-', dir=_workdir())
+    try:
+        with ThreadPoolExecutor(16) as ex:
+            seqres = list(ex.map(lambda t: run_sequence(work, t[0], module_text(t[1][0]), t[1][1]), enumerate(seqjobs)))
+    finally:
+        shutil.rmtree(work, ignore_errors=True)
+    for (classes, argvs), (res, err) in zip(seqjobs, seqres):
+        for k, (argv, (executed, listed)) in enumerate(zip(argvs, res)):
+            want = oracle_run(classes, argv)
+            ctx.count(('C', repr(classes), tuple(map(tuple, argvs)), k), True)
+            ctx.bump('C.run%d' % k)
+            if executed is None or (executed, listed) != want:
+                ctx.fail({'layer': 'C', 'classes': classes, 'argvs': argvs, 'run': k},
+                         'run %d of %r in one process executed %r listed %r; a run on its own gives executed %r listed %r (%s)'
+                         % (k, argvs, executed, listed, want[0], want[1], err[-120:]))
     ctx.sample({'layer': 'B', 'classes': jobs[0][0], 'argv': jobs[0][1] + jobs[0][2],
                 'executed': results[0][1], 'listed': results[0][2]})
     ctx.cov['rule'] = ('layer A: argv lists over a %d-token alphabet plus random flag-like strings '
